@@ -1123,6 +1123,58 @@ def family_constant_kw(run: Run, I: Impl, hist: dict):
     return len(exprs), bad
 
 
+# ================================================================================================ family S: Python scalars through const()
+def family_const_scalars(run: Run, I: Impl, hist: dict):
+    """const(<Python scalar>[, dtype]) of every shipped ai.onnx module, as ONE history per module in this process: values that are
+    EQUAL as Python objects but are different constants follow each other (0.0 / -0.0, 1 / 1.0 / True, 0 / False / 0.0, "" / "a").
+    Every call is judged on its own: the embedded tensor, Var.type and the propagated value are numpy's np.array(value, dtype), bit
+    for bit (sign of zero, element type), whatever was requested earlier.  Direct oracle (no model involved)."""
+    import importlib
+    from onnx import numpy_helper
+    n = bad = 0
+    seq = [0.0, -0.0, 0.0, 1, 1.0, True, 0, False, 0.0, -0.0, 2.5, -0.0, "a", "", "a", 1, True, 1.0, float("inf"), -0.0, 0.0]
+    dtypes = [None, np.float32, np.float64, np.float16, None]
+    for ver in (17, 18, 19, 20, 21):
+        op = importlib.import_module(f"spox.opset.ai.onnx.v{ver}")
+        for dt in dtypes:
+            for v in seq:
+                if isinstance(v, str) and dt is not None:
+                    continue
+                ref = np.array(v, dt)
+                want = R.reflect_array(ref.astype(str) if ref.dtype.kind in "US" else ref)
+                n += 1
+                hist["const_scalar"][type(v).__name__] = hist["const_scalar"].get(type(v).__name__, 0) + 1
+                problems = []
+                try:
+                    with warnings.catch_warnings():
+                        warnings.simplefilter("ignore")
+                        var = op.const(v) if dt is None else op.const(v, dt)
+                        model = I.spox.build({}, {"y": var})
+                        val = var._get_value()
+                        t = var.unwrap_tensor()
+                except Exception as e:  # noqa: BLE001
+                    problems = [("the call / build (it raised)", f"{type(e).__name__}: {str(e)[:200]}")]
+                if not problems:
+                    (node,) = [nd for nd in model.graph.node if nd.op_type == "Constant"]
+                    emb = numpy_helper.to_array(node.attribute[0].t)
+                    emb = emb.astype(str) if emb.dtype == object else emb
+                    val = val.astype(str) if val.dtype == object else val
+                    if not R.same_snapshot(R.reflect_array(emb), want):
+                        problems.append(("embedded tensor", R.reflect_array(emb)))
+                    if not R.same_snapshot(R.reflect_array(val), want):
+                        problems.append(("propagated value", R.reflect_array(val)))
+                    if R.dtype_name(t.dtype) != want["dtype"] or list(t.shape) != want["shape"]:
+                        problems.append(("Var.type", str(t)))
+                if problems:
+                    bad += 1
+                    run.fail("impl", f"C10/const-scalar-not-embedded-exactly/{type(v).__name__}",
+                             f"v{ver}.const({v!r}{'' if dt is None else ', ' + np.dtype(dt).name}) in a sequence of equal-but-different scalars: "
+                             f"{problems[0][0]} is not numpy's array of the value given at THIS call",
+                             {"module": f"v{ver}", "value": repr(v), "dtype": None if dt is None else np.dtype(dt).name, "expected": want,
+                              "problems": [(k, str(x)[:300]) for k, x in problems], "sequence": [repr(x) for x in seq]})
+    return n, bad
+
+
 # ================================================================================================ family H: histories
 
 
@@ -1441,7 +1493,7 @@ def run(run: Run) -> int:
     I = Impl()
     hist = {"dtype": {}, "path": {}, "layout": {}, "shape": {}, "mutated_after_call": 0, "ort_checked": 0,
             "attr_outcome": {}, "attr_kind": {}, "attr_kind_ok": {}, "attr_unrepresentable": 0, "constant_kw": {},
-            "history_kind": {}, "history_len": {}, "history_caller_changed": 0}
+            "history_kind": {}, "history_len": {}, "history_caller_changed": 0, "const_scalar": {}}
     n_t = 1300 if quick else 12000
     cases, good_t, stats = family_tensors(run, I, n_t, hist)
     n_x = family_exhaustive(run, I, thorough=not quick)
@@ -1449,6 +1501,7 @@ def run(run: Run) -> int:
     n_a, ok_a, unmod = family_attrs(run, I, 1500 if quick else 6000, hist)
     n_r, bad_r = family_rounding(run, I, 1200 if quick else 20000)
     n_c, bad_c = family_constant_kw(run, I, hist)
+    n_s, bad_s = family_const_scalars(run, I, hist)
     n_h, ok_h = family_histories(run, I, 350 if quick else 4000, hist)
     distinct = {repr((c["snap"], c["layout"], c["path"])) for c in cases if len(c["snap"].get("words", c["snap"].get("strs", []))) >= 1}
     samples = []
@@ -1457,7 +1510,7 @@ def run(run: Run) -> int:
                         "model[wf, =encode, =encode_pinned, decode=array, decode=canon]": c.get("coq")})
     hist["attr_outcome"] = {str(k): v for k, v in hist["attr_outcome"].items()}
     cov = {
-        "evaluations": len(cases) + 25 + n_d + n_a + n_c + n_h,
+        "evaluations": len(cases) + 25 + n_d + n_a + n_c + n_h + n_s,
         "distinct_nontrivial": len(distinct),
         "rule": "tensor cases distinct by (element type, shape, bit patterns, memory layout, construction path) with at least one element; "
                 "plus attribute cases (class x value), Constant keyword cases, decode cases and mutation histories counted in their own fields",
@@ -1467,6 +1520,7 @@ def run(run: Run) -> int:
         "attribute_cases": n_a, "attribute_cases_agree": ok_a, "attribute_cases_outside_model": unmod,
         "float_rounding_values": n_r, "float_rounding_disagreements": bad_r,
         "constant_keyword_cases": n_c, "constant_keyword_disagreements": bad_c,
+        "const_python_scalar_calls": n_s, "const_python_scalar_failures": bad_s,
         "histories": n_h, "histories_model_agrees": ok_h,
         "traces_validated_against_impl": good_t + ok_a + (n_c - bad_c) + ok_h + (n_d - bad_d),
         "disagreements_checked": len([f for f in run.failures if f.kind == "corr"]),
